@@ -1080,6 +1080,7 @@ def plan(tier, seed):
     for E, T in ((4101, 2), (4096, 3), (9000, 1)):
         items.append({"fam": "metrics-large", "E": E, "T": T})
     items.append({"fam": "analyze-cli"})
+    items.append({"fam": "evaluate-cli"})
     return items
 
 
@@ -1220,8 +1221,76 @@ def analyze_cli_run(item, col):
         shutil.rmtree(tmp, ignore_errors=True)
 
 
+def evaluate_cli_run(item, col):
+    """The metrics of an evaluation as the command line produces it: evaluate_model over several chain files of UNEQUAL length,
+    then the library metrics on the file it wrote, against the definitions applied to the per-sample predictions and the true
+    chain partition."""
+    from ..cli import run_cli
+    from ..screens import make_screen
+    from batchie.data import ExperimentSpace
+    from batchie.models.sparse_combo import SparseDrugComboMCMCSample
+
+    tmp = env.scratch_dir("c20ev")
+    try:
+        rows = [("s0", "p0", (("a", 1.0), ("b", 1.0)), 0.3, True), ("s1", "p0", (("a", 1.0), ("", 0.0)), 0.6, True),
+                ("s0", "p1", (("b", 1.0), ("", 0.0)), 0.8, True), ("s1", "p1", (("b", 1.0), ("a", 1.0)), 0.4, True), ("s1", "p1", (("b", 2.0), ("a", 1.0)), 0.15, True)]
+        screen = make_screen(rows, control="")
+        sfn = os.path.join(tmp, "screen.h5")
+        screen.save_h5(sfn)
+        es = ExperimentSpace.from_screen(screen)
+        ns, nt = int(es.n_unique_samples), int(es.n_unique_treatments)
+
+        def theta(k):
+            g = lambda shape, off: (np.sin(np.arange(int(np.prod(shape)), dtype=float) * (0.7 + 0.13 * k) + off).reshape(shape))  # noqa: E731
+            return SparseDrugComboMCMCSample(W=g((ns, 2), 0.1), W0=g((ns,), -0.2), V2=g((nt, 2), 0.05), V1=g((nt, 2), -0.1), V0=g((nt,), 0.3), alpha=0.2 - 0.1 * k, precision=2.0)
+
+        for lengths in ([2, 4], [3, 2, 4], [1, 3], [4, 2], [2, 2, 2], [5]):
+            case = {"fam": "evaluate-cli", "lengths": lengths}
+            files, thetas, k = [], [], 0
+            for c, n in enumerate(lengths):
+                h = ThetaHolder(n_thetas=n)
+                for _ in range(n):
+                    t = theta(k)
+                    h.add_theta(t)
+                    thetas.append(t)
+                    k += 1
+                fn = os.path.join(tmp, f"chain_{'-'.join(map(str, lengths))}_{c}.h5")
+                h.save_h5(fn)
+                files.append(fn)
+            out = os.path.join(tmp, "evaluation.h5")
+            if os.path.exists(out):
+                os.remove(out)
+            col.evaluations += 1
+            col.states += 1
+            col.transitions += 2
+            try:
+                run_cli("evaluate_model", ["--screen", sfn, "--thetas", *files, "--output", out])
+                me = ModelEvaluation.load_h5(out)
+                got = {"mse": float(me.mse()), "inter_chain_mse_variance": float(me.inter_chain_mse_variance())}
+            except BaseException as exc:  # noqa: BLE001
+                col.violation("C20|evaluate-cli|raised", f"evaluate_model with chain files of lengths {lengths}: {short_exc(exc)}", case)
+                continue
+            loaded = Screen.load_h5(sfn)
+            pred = [[float(x) for x in col_] for col_ in np.array([np.asarray(t.predict_viability(loaded), dtype=float) for t in thetas]).T]
+            obs = [float(x) for x in loaded.observations]
+            chain = [c for c, n in enumerate(lengths) for _ in range(n)]
+            sq = ref_sqerr(pred, obs)
+            want = {"mse": [ref_mse(sq)], "inter_chain_mse_variance": var_options(ref_chain_mses(sq, chain))}
+            col.outcome("evaluate-cli", tuple(lengths), round(got["mse"], 9), round(got["inter_chain_mse_variance"], 12))
+            col.nontriv("evaluate-cli", tuple(lengths))
+            for k_, opts in want.items():
+                if not close_any(got[k_], opts):
+                    col.violation(f"C20|evaluate-cli|{k_}", f"evaluate_model over chain files of lengths {lengths}: {k_} of the evaluation it wrote is {got[k_]!r}, "
+                                                            f"the definition on the per-sample predictions and the true chains gives {opts[0]!r}", case)
+    finally:
+        shutil.rmtree(tmp, ignore_errors=True)
+
+
 def run_item(item, col, tier):
     fam = item["fam"]
+    if fam == "evaluate-cli":
+        col.count("items:" + fam)
+        return evaluate_cli_run(item, col)
     if fam == "metrics-large":
         col.count("items:" + fam)
         return metrics_large_run(item, col)
@@ -1278,5 +1347,7 @@ def replay(case, col):
         metrics_large_run(case, col)
     elif fam == "analyze-cli":
         analyze_cli_run(case, col)
+    elif fam == "evaluate-cli":
+        evaluate_cli_run(case, col)
     else:
         raise KeyError(fam)
